@@ -131,6 +131,10 @@ void muggle_async_logger_log(
 	{
 		return;
 	}
+	// like the sync logger's message: fields that are not stamped below (timestamp
+	// and thread id without the matching formatter hint) read as "not set", never
+	// as whatever the allocator left in the block
+	memset(msg, 0, sizeof(*msg));
 
 	// level
 	msg->level = level;
